@@ -133,7 +133,7 @@ def _coincidence(mg, fx):
         return None
     kw = dict(mg[4])
     on = kw.get('on')
-    if kw.get('how') != C('inner') or tag(on) != 'list' or {x[1] for x in on[1] if T.is_const(x)} != {'dt', 'ceilo'}:
+    if kw.get('how') != C('inner') or tag(on) not in ('list', 'tuple') or {x[1] for x in on[1] if T.is_const(x)} != {'dt', 'ceilo'}:
         return None
     sides = [_plain_rows(mg[1], fx), _plain_rows(mg[3][0], fx)]
     conds = []
